@@ -115,10 +115,16 @@ func verifH_C03_openapi2() {
 	for _, k := range smp.keep {
 		required[k] = true
 	}
-	v := verifChoose("variant", 2*len(keys)+2)
+	v := verifChoose("variant", 2*len(keys)+3)
 	in := map[string]any{}
 	flipped := false
 	switch {
+	case v == 2*len(keys)+2:
+		// a field the specification does not know (and that is not an x- extension) next to all the others
+		for k, m := range obj {
+			in[k] = m
+		}
+		in["unknownField"] = map[string]any{"k": []any{1.0, "u"}}
 	case v == 2*len(keys)+1:
 		in = verifFlipBools(obj).(map[string]any)
 		flipped = true
